@@ -307,6 +307,8 @@ def check(ctx):
     from rules import independence as _ind
     n34 = _ind.r34_run_idempotence(ctx)
     n34 += _ind.r34_closure_state(ctx)
+    # ... nor does a run use up something only the constructor / factory can create (an open file, a key-value store, a generator)
+    _ind.r34_one_shot(ctx)
     run.floor('R34', n34, 30, 'step classes and step factories')
 
     run.rule('R25', 'FRAMING: the writer emits one single-line JSON document plus a newline per object and the reader reads line by '
